@@ -46,6 +46,8 @@ func oracleC16(fi *FileInfo) *ev.Failure {
 		return ev.Failf(pkgSig("plugin-error", fi), "protoc-gen-fastmarshal (%s) on %s: %.400s", fi.FMParam, fi.ProtoFile, fi.FMErr)
 	case fi.NonDeterm != "":
 		return ev.Failf(pkgSig("non-deterministic", fi), "%s", fi.NonDeterm)
+	case fi.OptSpelling != "":
+		return ev.Failf(pkgSig("option-spelling", fi), "%s", fi.OptSpelling)
 	case fi.ParseErr != "":
 		return ev.Failf(pkgSig("output-does-not-parse", fi), "%.400s", fi.ParseErr)
 	case fmt.Sprint(fi.FMFiles) != fmt.Sprint(fi.Expected):
